@@ -24,7 +24,7 @@ TTargetConn == IsEvent("TargetConn") /\ Run /\ Ev.hdr_ok /\ UNCHANGED svars
 TTargetRecv == IsEvent("TargetRecv") /\ Run /\ TargetRecv(S(Ev.s), Ev.n, Ev.off, Ev.ok)
 TTargetEof == IsEvent("TargetEof") /\ Run /\ UNCHANGED svars
 TClientRecv == IsEvent("ClientRecv") /\ Run /\ ClientRecv(S(Ev.s), Ev.n, Ev.off, Ev.ok)
-TPeer == IsEvent("PeerConnected") /\ Run /\ Ev.ec = "ok" /\ UNCHANGED svars
+TPeer == IsEvent("PeerConnected") /\ Run /\ (Ev.ec = "ok" \/ ~d[S(Ev.s)].valid) /\ UNCHANGED svars
 TUdpShort == IsEvent("UdpShort") /\ Run /\ UNCHANGED svars
 TUdpSent == IsEvent("UdpSent") /\ Run /\ UdpSent(S(Ev.s), Ev.pl)
 TTargetUdp == /\ IsEvent("TargetUdp") /\ Run
